@@ -17,11 +17,15 @@ Inductive ftree :=
 | FMore (mk : marker) (pad : nat) (ts : list ftree) (bl : bool) (next : ftree)   (* an item, a blank line if bl, and the rest of the same list (FItem or FMore) *)
 | FHead (lv : nat) (c : Z) (body : str)                  (* an ATX heading: lv hashes, a space, the title c :: body *)
 | FRule (c : Z) (n : nat)                                (* a thematic break: 3 + n times the character c *)
-| FEm (c0 : Z) (pre : str) (ch : Z) (double : bool) (w post : str).   (* a one-line paragraph: c0 :: pre, a run of ch, w, the run again, post *)
+| FEm (c0 : Z) (pre : str) (ch : Z) (double : bool) (w post : str)    (* a one-line paragraph: c0 :: pre, a run of ch, w, the run again, post *)
+| FLink (c0 : Z) (pre w dest post : str).                            (* a one-line paragraph: c0 :: pre, [w](dest), post *)
 
 (* the text of an FEm line after its first character *)
 Definition em_run (ch : Z) (double : bool) : str := if double then [ch; ch] else [ch].
 Definition em_body (pre : str) (ch : Z) (double : bool) (w post : str) : str := pre ++ em_run ch double ++ w ++ em_run ch double ++ post.
+
+(* the text of an FLink line after its first character *)
+Definition link_body (pre w dest post : str) : str := pre ++ [91] ++ w ++ [93; 40] ++ dest ++ [41] ++ post.
 
 Definition quote_s (l : sline) : sline :=
   match l with
@@ -54,6 +58,7 @@ Fixpoint spell (t : ftree) : list sline :=
   | FHead lv c body => [SLine 0 35 (repeat 35 (lv - 1) ++ 32 :: c :: body)]
   | FRule c n => [SLine 0 c (repeat c (S (S n)))]
   | FEm c0 pre ch double w post => [SLine 0 c0 (em_body pre ch double w post)]
+  | FLink c0 pre w dest post => [SLine 0 c0 (link_body pre w dest post)]
   end.
 Definition spell_seq (ts : list ftree) : list sline := join_blank (map spell ts).
 Definition text_of (ls : list sline) : list str := map render_line ls.
@@ -91,6 +96,7 @@ Section Mode.
     | FHead lv c body => PHeading ln (Z.of_nat lv) (c :: body) []
     | FRule c n => PThematic ln [c :: repeat c (S (S n)) ++ [10]]
     | FEm c0 pre ch double w post => PParagraph ln [c0 :: em_body pre ch double w post ++ [10]]
+    | FLink c0 pre w dest post => PParagraph ln [c0 :: link_body pre w dest post ++ [10]]
     end.
   Fixpoint pre_seq (ln : Z) (ts : list ftree) : list pre :=
     match ts with
@@ -102,7 +108,7 @@ End Mode.
 (* Paragraph.parse_setext after the block *)
 Fixpoint st_after (st : pstate) (t : ftree) : pstate :=
   match t with
-  | FPara _ _ _ | FFence _ _ _ | FHead _ _ _ | FRule _ _ | FEm _ _ _ _ _ _ => st
+  | FPara _ _ _ | FFence _ _ _ | FHead _ _ _ | FRule _ _ | FEm _ _ _ _ _ _ | FLink _ _ _ _ _ => st
   | FQuote _ => mkPs true
   | FItem _ _ ts => fold_left st_after ts st
   | FMore _ _ ts _ next => st_after (fold_left st_after ts st) next
@@ -111,7 +117,7 @@ Definition st_seq (st : pstate) (ts : list ftree) : pstate := fold_left st_after
 
 Fixpoint depth (t : ftree) : nat :=
   match t with
-  | FPara _ _ _ | FFence _ _ _ | FHead _ _ _ | FRule _ _ | FEm _ _ _ _ _ _ => 0%nat
+  | FPara _ _ _ | FFence _ _ _ | FHead _ _ _ | FRule _ _ | FEm _ _ _ _ _ _ | FLink _ _ _ _ _ => 0%nat
   | FQuote ts | FItem _ _ ts => S (fold_right (fun t m => Nat.max (depth t) m) 0%nat ts)
   | FMore _ _ ts _ next => Nat.max (S (fold_right (fun t m => Nat.max (depth t) m) 0%nat ts)) (depth next)
   end.
